@@ -14,6 +14,12 @@ FAMILIES = {
     "inplace-dir-without-o(usage error)": [],
     "bundle": [("separate", "out.js")],
     "bundle-onto-input": [("bundleonto", "a.js")],
+    "bundle-onto-second-input": [("bundleonto", "b.js")],
+    "bundle-onto-last-input": [("bundleonto", "b.js")],
+    "inplace-source-is-symlink": [("inplace", "app.js")],
+    "inplace-destination-is-symlink": [("inplace", "latest.js")],
+    "inplace-destination-is-hardlink": [("inplace", "other.js")],
+    "inplace-other-spelling": [("inplace", "d/a.js")],
     "sync": [("separate", "out/a.js"), ("separate", "out/readme.txt")],
     "sync-serial(-v)": [("separate", "out/a.js"), ("separate", "out/readme.txt")],
     "fail-inplace": [("inplace", "bad.js")],
